@@ -1373,7 +1373,6 @@ impl DhtNetworkManager {
 
             let results = futures::future::join_all(query_futures).await;
 
-            let mut found_new_closer = false;
             for (peer_id, result) in results {
                 queried_nodes.insert(peer_id.clone());
 
@@ -1415,7 +1414,6 @@ impl DhtNetworkManager {
                                 }
                                 queued_peer_ids.insert(node.peer_id.clone());
                                 candidates.push_back(node);
-                                found_new_closer = true;
                             }
                         }
                     }
@@ -1438,9 +1436,22 @@ impl DhtNetworkManager {
             best_nodes.sort_by(|a, b| Self::compare_node_distance(a, b, key));
             best_nodes.truncate(count);
 
-            if !found_new_closer {
-                info!("[NETWORK] Converged after {} iterations", iteration + 1);
-                break;
+            // Kademlia termination: once K answered nodes are known, a queued candidate that is no
+            // closer than the farthest of them cannot improve the result, so it is dropped. The
+            // lookup ends when the queue is empty (checked at the top of the loop), i.e. when every
+            // peer we learned of that could still belong to the K closest has been queried.
+            // (Stopping as soon as one round brought no new candidate left such peers unqueried.)
+            if best_nodes.len() >= count
+                && let Some(worst) = best_nodes.last().cloned()
+            {
+                candidates.retain(|candidate| {
+                    let keep = Self::compare_node_distance(candidate, &worst, key)
+                        == std::cmp::Ordering::Less;
+                    if !keep {
+                        queued_peer_ids.remove(&candidate.peer_id);
+                    }
+                    keep
+                });
             }
 
             let snapshot: BTreeSet<String> = queued_peer_ids.iter().cloned().collect();
